@@ -115,6 +115,18 @@ def _neg(x):
     return -x
 
 
+def _bitwise_or(x, y):
+    return p.BitwiseOr((x, y))
+
+
+def _bitwise_xor(x, y):
+    return p.BitwiseXor((x, y))
+
+
+def _bitwise_and(x, y):
+    return p.BitwiseAnd((x, y))
+
+
 class ASTToPymbolic(ASTMapper):
 
     bin_op_map: ClassVar[dict[type[ast.operator], Any]] = {
@@ -128,9 +140,9 @@ class ASTToPymbolic(ASTMapper):
             ast.Pow: p.Power,
             ast.LShift: p.LeftShift,
             ast.RShift: p.RightShift,
-            ast.BitOr: p.BitwiseOr,
-            ast.BitXor: p.BitwiseXor,
-            ast.BitAnd: p.BitwiseAnd,
+            ast.BitOr: _bitwise_or,
+            ast.BitXor: _bitwise_xor,
+            ast.BitAnd: _bitwise_and,
             }
 
     def map_BinOp(self, expr):  # noqa
@@ -144,7 +156,7 @@ class ASTToPymbolic(ASTMapper):
         return op_constructor(self.rec(expr.left), self.rec(expr.right))
 
     unary_op_map: ClassVar[dict[type[ast.unaryop], Any]] = {
-            ast.Invert: _neg,
+            ast.Invert: p.BitwiseNot,
             ast.Not: p.LogicalNot,
             # ast.UAdd:
             ast.USub: _neg,
